@@ -15,6 +15,7 @@ PROPS = {
         "streams": [
             {"name": "name", "quick": 20000, "thorough": 400000},
             {"name": "wire-decode", "quick": 8000, "thorough": 100000},
+            {"name": "tables", "quick": 1, "thorough": 1, "shards": 1, "fixed": True},
         ],
         "trivial_tags": [r":bad-op"],
         "assumptions": [
@@ -42,6 +43,7 @@ PROPS = {
         "modules": ["Resolved.Props.C04"],
         "streams": [
             {"name": "wire-encode", "quick": 3000, "thorough": 60000, "extra_quick": [16], "extra_thorough": [400]},
+            {"name": "tables", "quick": 1, "thorough": 1, "shards": 1, "fixed": True},
         ],
         "trivial_tags": [r":bad-op"],
         "assumptions": ["well-formed message = WfMsg (Spec/Wire.lean); RDATA or section counts >= 65536 make to_octets fail, as the property allows"],
